@@ -469,6 +469,12 @@ class SInt:
     def __repr__(self):
         return 'SInt(%s)' % self.e
 
+    def __deepcopy__(self, memo):
+        return self
+
+    def __copy__(self):
+        return self
+
     def __str__(self):
         return str(self.concretize())
 
@@ -779,6 +785,12 @@ class SSeq:
 
     def __repr__(self):
         return 'SSeq[%s](%s)' % (self.kind.__name__, list(self.el))
+
+    def __deepcopy__(self, memo):
+        return self             # immutable
+
+    def __copy__(self):
+        return self
 
     def __str__(self):
         if self.kind is str:
